@@ -19,8 +19,10 @@ def selftest():
     assert lib.round_half_even(lib.Fr(5, 2)) == 2 and lib.round_half_even(lib.Fr(7, 2)) == 4
     assert lib.d4(0.05) == 0.05
     n = 0
-    for f in sorted(glob.glob(os.path.join(core.VERIF, "props", "C*.py"))):
-        mod = importlib.import_module("props." + os.path.basename(f)[:-3])
+    with open(os.path.join(core.VERIF, "MANIFEST.json")) as f:
+        claimed = [c["property_id"] for c in json.load(f)["checks"]]
+    for pid in claimed:          # only claimed checks: other modules may be work in progress
+        mod = importlib.import_module("props." + pid)
         if hasattr(mod, "selftest"):
             mod.selftest()
         n += 1
